@@ -414,6 +414,11 @@ func (l *List) ToDynamoDB() types.Item {
 	attr := types.Item{L: []*types.Item{}}
 
 	for _, v := range l.Value {
+		if v == nil {
+			// removed element, the list is waiting to be compacted
+			continue
+		}
+
 		value := v.ToDynamoDB()
 		attr.L = append(attr.L, &value)
 	}
